@@ -60,6 +60,7 @@ retry_find_border:
          * @a root is the root node of the some layer, but it was deleted.
          * So it must retry from root of the all tree.
          */
+        YAKUSHIMA_VERIF_HOOK(YAKUSHIMA_VERIF_RETRY, nullptr);
         goto retry_from_root; // NOLINT
     }
     constexpr std::size_t tuple_node_index = 0;
@@ -75,6 +76,7 @@ retry_find_border:
          * this code path is reached. You may need to make appropriate use of
          * compiler fences.
          */
+        YAKUSHIMA_VERIF_HOOK(YAKUSHIMA_VERIF_RETRY, nullptr);
         goto retry_from_root; // NOLINT
     }
     // check target_border is border node.
@@ -98,6 +100,7 @@ retry_fetch_lv:
          * It may be change the correct border between atomically fetching border node
          * and atomically fetching lv.
          */
+        YAKUSHIMA_VERIF_HOOK(YAKUSHIMA_VERIF_RETRY, nullptr);
         goto retry_from_root; // NOLINT
     }
     // the target node is correct
@@ -109,6 +112,7 @@ retry_fetch_lv:
         node_version64_body final_check = target_border->get_stable_version();
         if (final_check.get_vinsert_delete() !=
             v_at_fetch_lv.get_vinsert_delete()) { // the lv may be inserted.
+            YAKUSHIMA_VERIF_HOOK(YAKUSHIMA_VERIF_RETRY, nullptr);
             goto retry_fetch_lv;                  // NOLINT
         }
         return status::OK_NOT_FOUND;
@@ -126,12 +130,14 @@ retry_fetch_lv:
             final_check.get_vsplit() !=
                     v_at_fb.get_vsplit()) { // the border may be incorrect.
             target_border->version_unlock();
+            YAKUSHIMA_VERIF_HOOK(YAKUSHIMA_VERIF_RETRY, nullptr);
             goto retry_from_root; // NOLINT
         }                         // here border is correct.
         if (final_check.get_vinsert_delete() !=
             v_at_fetch_lv
                     .get_vinsert_delete()) { // the lv may be inserted/deleted.
             target_border->version_unlock();
+            YAKUSHIMA_VERIF_HOOK(YAKUSHIMA_VERIF_RETRY, nullptr);
             goto retry_fetch_lv; // NOLINT
         }
 
@@ -153,10 +159,12 @@ retry_fetch_lv:
          !final_check.get_root()) || // this border was deleted.
         final_check.get_vsplit() !=
                 v_at_fb.get_vsplit()) { // this border is incorrect.
+        YAKUSHIMA_VERIF_HOOK(YAKUSHIMA_VERIF_RETRY, nullptr);
         goto retry_from_root;           // NOLINT
     }
     if (final_check.get_vinsert_delete() !=
         v_at_fetch_lv.get_vinsert_delete()) { // fetched lv may be deleted.
+        YAKUSHIMA_VERIF_HOOK(YAKUSHIMA_VERIF_RETRY, nullptr);
         goto retry_fetch_lv;                  // NOLINT
     }
     traverse_key_view.remove_prefix(sizeof(key_slice_type));
